@@ -19,7 +19,7 @@ def anon(t):
 
 def run(ctx, rep):
     prog = ctx.program("default")
-    rep.configs.append("default")
+    rep.configs.append(getattr(ctx, "alias", "default"))
     c06.pairing(prog, rep, "R01.1")
     c06.geometry_inputs(prog, rep, "R01.2")
     triangle(prog, rep)
